@@ -46,6 +46,7 @@ def _worker(args):
         sc = scs[name]
         res = harness.run_symbolic(sc, tier)
         res["canary"] = sc.canary
+        res["relaxed"] = bool(getattr(sc, "relax_int", False))
         res["expect_outcomes"] = list(sc.expect_outcomes)
         res["entry"] = list(sc.entry)
         res["params"] = {k: str(v) for k, v in sc.params.items()}
@@ -82,12 +83,22 @@ def _worker(args):
             p = paths[pi]
             if kind == "witness":
                 ok, why = True, ""
+                diverged = False
                 if (p.get("exception") or None) != (out.get("exception") or None):
                     ok, why = False, f"exception sym={p.get('exception')} conc={out.get('exception')} {out.get('exception_text','')}"
                 elif p["outcomes"] != out["outcomes"]:
                     ok, why = False, f"outcomes sym={p['outcomes']} conc={out['outcomes']}"
+                    if res["relaxed"] and not out.get("exception"):
+                        # over-approximated integers: the path's model may sit on a rounding knife edge that the exact code resolves
+                        # the other way. Not an encoding error; what was PROVED valid must still hold on the concrete run.
+                        diverged = True
+                        res["witness_diverged"] = res.get("witness_diverged", 0) + 1
+                        valid = {o["name"] for o in p["obligations"] if o["status"] == "valid"}
+                        notvalid = {o["name"] for o in p["obligations"] if o["status"] != "valid"}
+                        bad = [f for f in out["failed"] if f in valid and f not in notvalid and not f.startswith("CANARY")]
+                        ok, why = (False, f"checks proved valid fail concretely: {bad}") if bad else (True, "")
                 else:
-                    ok, why = harness.obs_agree(p.get("observations", []), out["observations"])
+                    ok, why = harness.obs_agree(p.get("observations", []), out["observations"]) if not res["relaxed"] else (True, "")
                     if ok:
                         valid = {o["name"] for o in p["obligations"] if o["status"] == "valid"}
                         notvalid = {o["name"] for o in p["obligations"] if o["status"] != "valid"}
@@ -99,8 +110,10 @@ def _worker(args):
                     if f.startswith("WITNESS") and f not in res["confirmed"]:
                         res["confirmed"][f] = {"values": p["witness"], "path": pi, "outcomes": out["outcomes"]}
                 res["witness_only_checks"] = res.get("witness_only_checks", 0) + sum(1 for c in out.get("checked", []) if c.startswith("WITNESS"))
-                if ok:
+                if ok and not diverged:
                     res["witness_ok"] += 1
+                elif ok:
+                    pass
                 else:
                     res["witness_bad"].append({"path": pi, "why": why, "values": p["witness"], "tb": out.get("exception_tb", "")})
             else:
@@ -241,6 +254,11 @@ def main(argv=None):
                 violations.append((r["scenario"], key, info["values"]))
         for key, tries in r.get("unconfirmed", {}).items():
             if key.startswith("CANARY"):
+                continue
+            if r.get("relaxed"):
+                # integers were over-approximated (bracketed reals): a refutation that no concrete run reproduces is a spurious model
+                tot["inconclusive"] += 1
+                extra_notes.append(f"{r['scenario']}: '{key}': refuted only in the relaxed-integer over-approximation; {len(tries)} model(s) replayed on the unpatched code, none reproduces (inconclusive, not a violation)")
                 continue
             if key.startswith("LEMMA"):
                 # a proof step failed but no witness input violates the property's own tolerance: not proved, not refuted
